@@ -60,6 +60,9 @@ def run_one(acc, front, framing, cfg, seq, delivery, record=True):
     elif delivery == 'timeout+split':
         import socket
         script = [socket.timeout('timed out'), whole[:cut], whole[cut:]]     # an idle period on the connection first
+    elif delivery == 'debris-first':
+        # datagram fronts: a truncated datagram arrives first; every later datagram is still a request of its own
+        script = [frames[0][:max(1, len(frames[0]) // 2)]] + list(frames)
     else:
         script = list(frames)
     writes = conn.run_script(script)
@@ -119,6 +122,8 @@ def shard(args):
                 continue
             nodes.add((cfg.name, seq))
             modes = ('pipelined', 'per-read', 'split') if kind == 'stream' else ('per-read',)
+            if kind != 'stream':
+                modes += ('debris-first',)
             if framing == 'tls':
                 modes = ('per-read',)       # a TLS record is one PDU: no length field to pipeline or split by
             if front in ('sync-tcp', 'sync-serial') and framing != 'tls':
